@@ -131,6 +131,12 @@ OPS = ['cd_tmp', 'cd_sub', 'cd_act', 'env_set', 'env_unset', 'env_set_path', 'ch
 ROOT_OPS = ('root_file', 'root_link', 'root_dir')  # the case puts something of its own directly in the sandbox root
 
 
+# what the chmod ops leave behind: entry -> permission bits that must be off afterwards (`chmod a-w`: the write bits,
+# `chmod 000`: all of them; the other bits depend on the umask)
+_CHMOD_TARGETS = {'chmod_file': {'ro-%s.txt': 0o222}, 'chmod_dir': {'rodir-%s': 0o222, 'rodir-%s/inner': 0o222},
+                  'chmod_noperm': {'nodir-%s': 0o777, 'nodir-%s/inner': 0o777}}
+
+
 def cli_build(case):
     ph = {p: [] for p in ['setup', 'act', 'before-assert', 'assert', 'cleanup']}
     ph['setup'].append('$ pwd > {OBS}/pwd0; cd @[EXACTLY_ACT]@/.. && find . -mindepth 1 | sort > {OBS}/ls0')
@@ -214,6 +220,8 @@ def cli_build(case):
     # observation of the final state: first thing cleanup does (cleanup runs whenever a sandbox exists)
     ph['cleanup'].insert(0, '$ cp -r @[EXACTLY_RESULT]@ {OBS}/result-copy; cp -r @[EXACTLY_TMP]@ {OBS}/tmp-copy; '
                             'ls -A @[EXACTLY_ACT]@/.. | sort > {OBS}/ls1')
+    if case.get('status'):
+        conf = conf + ['status = ' + case['status']]
     lines = (['[conf]'] + conf + ['']) if conf else []
     for p in ['setup', 'act', 'before-assert', 'assert', 'cleanup']:
         lines.append('[%s]' % p)
@@ -249,6 +257,8 @@ def check_cli(case) -> Verdict:
     keep = case['keep']
     argv = (['--keep'] if keep else []) + (['--act'] if act_mode else []) + ['t.case']
     exp_ident = {'pass': 'PASS', 'fail': 'FAIL'}.get(e, 'HARD_ERROR')
+    if case.get('status') == 'FAIL':
+        exp_ident = {'pass': 'XPASS', 'fail': 'XFAIL'}.get(e, 'HARD_ERROR')
     exp_idents = {exp_ident}
     if case.get('cleanup_fails'):
         # a failing cleanup step may be named instead of the earlier failure
@@ -271,6 +281,14 @@ def check_cli(case) -> Verdict:
         if keep and r.out.endswith('\n') and r.out.count('\n') == 1 and os.path.isdir(r.out[:-1]):
             kept = driver.tree_snapshot(r.out[:-1])
             obs['kept_root_entries'] = sorted(os.listdir(r.out[:-1]))
+            obs['kept_modes'] = {}
+            for j, (p_, op_) in enumerate(case['ops']):
+                for rel in _CHMOD_TARGETS.get(op_, ()):
+                    q = os.path.join(r.out[:-1], 'act', rel % ('f%d' % j))
+                    try:
+                        obs['kept_modes'][rel % ('f%d' % j)] = oct(os.lstat(q).st_mode & 0o777)
+                    except OSError as ex:
+                        obs['kept_modes'][rel % ('f%d' % j)] = type(ex).__name__
         sandboxes = r.sandboxes
         tmproot = ws.tmproot
     ident = (r.first_err_line if keep else r.first_out_line)
@@ -369,6 +387,14 @@ def check_cli(case) -> Verdict:
                 return bad('kept-sandbox-not-intact')
         if act_ran and kept.get('result/stdout') != ['f', case['out']]:
             return bad('kept-sandbox-result')
+        # "left intact": what the case did to the permissions of its own files and directories is still there
+        for j, (p_, op_) in enumerate(case['ops']):
+            if op_ in _CHMOD_TARGETS and _reached(case, p_):
+                for rel, off in _CHMOD_TARGETS[op_].items():
+                    seen = obs['kept_modes'].get(rel % ('f%d' % j))
+                    if seen is None or not seen.startswith('0o') or int(seen, 8) & off:
+                        detail['bits_that_must_be_off'] = [rel % ('f%d' % j), oct(off)]
+                        return bad('kept-sandbox-permissions-changed')
     else:
         if sandboxes:
             return bad('sandbox-not-removed')
@@ -394,7 +420,8 @@ def cli_cases(draw, allow_timeouts=True):
             'actor': draw(st.sampled_from(['command', 'command', 'source', 'file'])),
             'act_mode': draw(st.integers(0, 3)) == 0,
             'code': draw(st.sampled_from([0, 1, 2, 7, 127, 255]) | st.integers(0, 255)),
-            'out': draw(_text), 'err': draw(_text)}
+            'out': draw(_text), 'err': draw(_text),
+            'status': draw(st.sampled_from([None, None, None, 'FAIL', 'FAIL', 'PASS']))}
 
 
 # ----------------------------------------------------------------------------------------------------
